@@ -33,8 +33,8 @@ SPEC = {
              'run, between runs and inside events, with 1-3 simulate calls; lifecycle monitor on all of them; a case '
              'is one scenario; non-trivial = a late-created asset subsequently handled a part / order / transition / '
              'sample; also: System creations inside simulate_multiple_times(.., 0), late group-path twins against block_input twins, nested spawners, refused late constructions, hundreds of assets'),
-    'floors': {'quick': {'late_created_assets': 1500, 'subline_twins_equal': 100, 'branch_twins_equal': 100,
-                         'find_assets_queries': 2000, 'superseded_system_rejected': 100,
+    'floors': {'quick': {'late_created_assets': 1500, 'subline_twins_equal': 70, 'branch_twins_equal': 70,
+                         'find_assets_queries': 1200, 'superseded_system_rejected': 100,
                          'late_assets_that_worked': 500, 'initialisations_checked': 5000},
                'thorough': {'late_created_assets': 30000, 'subline_twins_equal': 2000, 'branch_twins_equal': 2000,
                             'find_assets_queries': 40000, 'superseded_system_rejected': 2000,
